@@ -299,6 +299,11 @@ pub proof fn ax_pow_mod_range(b: int, e: int, n: int)
     ensures 0 <= pow_mod(b, e, n) < n,
 { admit(); }
 
+/// 2^k - 1 has exactly k significant bits
+pub proof fn ax_bit_len_pow2m1(k: nat)
+    ensures bit_len(ipow(2, k) - 1) == k,
+{ admit(); }
+
 /// gcd depends on the residue only
 pub proof fn ax_gcd_mod(a: int, n: int)
     requires n > 0,
